@@ -68,11 +68,12 @@ type ContractTable struct {
 	Files   []string
 	GhostFields map[string]string // "pkg.Type.field" -> type
 	Consts  map[string]string
+	GhostDefaults map[string]string // ghost field key -> default value of freshly allocated objects
 	InitFacts map[string][]Clause // "pkgname.global" -> facts established by the package initialiser (assumed)
 }
 
 func newContractTable() *ContractTable {
-	return &ContractTable{C: map[string]*Contract{}, Funcs: map[string]*SpecFunc{}, Imports: map[string]string{}, GhostFields: map[string]string{}, Consts: map[string]string{}, InitFacts: map[string][]Clause{}}
+	return &ContractTable{C: map[string]*Contract{}, Funcs: map[string]*SpecFunc{}, Imports: map[string]string{}, GhostFields: map[string]string{}, Consts: map[string]string{}, GhostDefaults: map[string]string{}, InitFacts: map[string][]Clause{}}
 }
 
 var tagRe = regexp.MustCompile(`^\[([A-Za-z0-9_.:\-]+)\]\s*`)
@@ -183,7 +184,10 @@ func (ct *ContractTable) loadContractFile(path string) error {
 			ct.InitFacts[k] = append(ct.InitFacts[k], c)
 		case "ghostfield":
 			// ghostfield pkg.Type.name Type
-			if len(fields) != 3 {
+			// ghostfield pkg.Type.name Type [= default]
+			if len(fields) == 5 && fields[3] == "=" {
+				ct.GhostDefaults[fields[1]] = fields[4]
+			} else if len(fields) != 3 {
 				return fmt.Errorf("%s:%d: bad ghostfield", path, rl.line)
 			}
 			ct.GhostFields[fields[1]] = fields[2]
